@@ -68,6 +68,20 @@ func (s *Servant) ReceivedFor(token string) []*Received {
 	return append([]*Received(nil), s.received[token]...)
 }
 
+// Leftover returns the tokens that still have recorded invocations (after Forget: invocations
+// that arrived later) with their counts.
+func (s *Servant) Leftover() map[string]int {
+	s.mu.Lock()
+	defer s.mu.Unlock()
+	m := map[string]int{}
+	for k, v := range s.received {
+		if len(v) > 0 {
+			m[k] = len(v)
+		}
+	}
+	return m
+}
+
 func (s *Servant) Forget(token string) {
 	s.mu.Lock()
 	delete(s.directives, token)
